@@ -30,9 +30,9 @@ def gls_streams(tier, seed):
         exh += list(gl.exhaustive_gls_cases(4, full))
         exh += list(gl.exhaustive_gls_cases(5, small))
         c5 = list(gl.exhaustive_gls_cases(5, full))
-        exh += rng.sample(c5, 60000)
+        exh += rng.sample(c5, 30000)
     out.append(("gls_exhaustive", exh, "gls_case", "gls_case_code"))
-    nrand = 2500 if quick else 60000
+    nrand = 2500 if quick else 40000
     out.append(("gls_random", [gl.gen_gls_case(rng, 3, 9 if quick else 11) for _ in range(nrand)],
                 "gls_case", "gls_case_code"))
     return out
@@ -49,8 +49,8 @@ def glsr_streams(tier, seed):
     exh += rng.sample(c4, 2500) if quick else c4
     if not quick:
         c5 = list(gl.exhaustive_glsr_cases(5, modes[:2] + modes[4:6], gpls=(2,)))
-        exh += rng.sample(c5, 30000)
-    nrand = 2000 if quick else 40000
+        exh += rng.sample(c5, 15000)
+    nrand = 2000 if quick else 25000
     return [("glsr_exhaustive", exh, "glsr_case", "glsr_case_code"),
             ("glsr_random", [gl.gen_glsr_case(rng, 3, 8 if quick else 9) for _ in range(nrand)],
              "glsr_case", "glsr_case_code")]
@@ -64,7 +64,7 @@ def td_streams(tier, seed):
         exh += list(gl.exhaustive_td_cases(n))
     c5 = list(gl.exhaustive_td_cases(5))
     exh += rng.sample(c5, 2500) if quick else c5
-    nrand = 3000 if quick else 60000
+    nrand = 3000 if quick else 30000
     return [("topdown_exhaustive", exh, "td_case", "td_case_code"),
             ("topdown_random", [gl.gen_td_case(rng, 3, 9 if quick else 11) for _ in range(nrand)],
              "td_case", "td_case_code")]
@@ -72,7 +72,7 @@ def td_streams(tier, seed):
 
 def phybo_streams(tier, seed):
     rng = random.Random(seed + 3)
-    n = 60 if tier == "quick" else 1500
+    n = 60 if tier == "quick" else 1000
     return [("phybo_get_GLS", [gl.gen_phybo_case(rng) for _ in range(n)], "phybo_case", "phybo_case_code")]
 
 
@@ -86,9 +86,18 @@ def corpus_streams(kinds):
     return [("corpus_" + k, by_kind[k]) + gl.CASE_TYPES[k] for k in kinds if k in by_kind]
 
 
+def brute_streams(tier, seed):
+    """Thorough tier: the literal exhaustive enumeration of labellings against the dynamic programme
+    (proved equal; run as a self-check of the checker) on trees with <= 6 leaves."""
+    if tier == "quick":
+        return []
+    rng = random.Random(seed + 4)
+    return [("gls_brute_force", [gl.gen_gls_case(rng, 2, 6) for _ in range(3000)], "gls_case", "gls_brute_code")]
+
+
 def streams(tier, seed, prop):
     if prop == "C08":
-        return corpus_streams(["get_gls"]) + gls_streams(tier, seed)
+        return corpus_streams(["get_gls"]) + gls_streams(tier, seed) + brute_streams(tier, seed)
     return (corpus_streams(["get_gls", "glsr", "topdown"]) + gls_streams(tier, seed) + glsr_streams(tier, seed)
             + td_streams(tier, seed) + phybo_streams(tier, seed))
 
@@ -104,6 +113,7 @@ def main(tier, seed, prop=PROP):
     try:
         for name, cases, ctype, cfn in streams(tier, seed, prop):
             st = driver.run_stream(run, gl, cases, d, name, ctype, cfn, prop_bits,
+                                   corr_bits=(5,) if cfn == "gls_brute_code" else (0,),
                                    shard=30 if ctype == "phybo_case" else 400)
             total_prop += st["prop_fail"] + st["impl_errors"]
     except coqrun.CoqError as e:
